@@ -12,7 +12,7 @@ CLAIMS["C07"] = (
 
 CLAIMS["C04"] = (
     "'No normal exit without the checksum comparison' obligations, proved on every path of the real functions: SignatureHeader._read (start-header CRC over bytes 12..31), calculate_crc32 (= CRC32 for every block size), Worker._extract_single and Worker._check (every delivered or skipped non-empty member: regular, symlink, junction), Worker.decompress (folder CRC consulted at folder end; delivers exactly the declared size), SevenZipFile.test/_read_digest (each defined pack digest compared at the right offset over exactly its pack size).",
-    "Assumed: CRC32 as an uninterpreted function with the streaming homomorphism; its detection power (what a mismatch reveals) and the codecs' behaviour on damaged input are assumptions; orchestration methods are verified in abstract mode (opaque objects, stable-attribute and frame assumptions listed in the evidence). Bit-flip campaigns are fault enumeration (another family) and are not claimed; one BOUNDED stand-in (labelled bounded) alters one byte of a CRC-protected member in 400 archives from an independent writer and requires an error.",
+    "Assumed: CRC32 as an uninterpreted function with the streaming homomorphism; its detection power (what a mismatch reveals) and the codecs' behaviour on damaged input are assumptions; orchestration methods are verified in abstract mode (opaque objects, stable-attribute and frame assumptions listed in the evidence). Bit-flip campaigns are fault enumeration (another family) and are not claimed; one BOUNDED stand-in (labelled bounded) alters one byte of a CRC-protected member in 400 archives from an independent writer and requires extraction to fail, testzip() not to report 'no damage' and test() not to certify (found FX27: testzip() returned None when only the folder-level CRC revealed the damage).",
     "DESIGN.md 7 (C04)",
 )
 CLAIMS["C09"] = (
@@ -79,13 +79,13 @@ CLAIMS["C05"] = (
 
 CLAIMS["C06"] = (
     "Reader conformance as contracts against the 7z format: header primitives for all encodings (C17 contracts), SignatureHeader._read, PackInfo._read (pack position, sizes, Digests structure with one CRC per DEFINED digest, END marker position, prefix-sum pack positions, for every count - ghost cut offsets over the input bytes), SubstreamsInfo._read (loop invariants over all folders / substreams: sizes from the Size record with the remainder rule, folders without streams, digest hand-out between folder-level CRCs and the record with the running record index pinned), UnpackInfo._retrieve_coders_info, FilesInfo._read (record walk) with _read_name / _read_times / _read_attributes (member k gets the k-th stored value, undefined stays undefined), Header._read, SevenZipFile._real_get_contents (header parsed only after its CRC matched; members appended in header order and to their folder's list under their own index; a member's digest is present exactly when its OWN defined flag is set; password flag from every folder), _get_fileinfo_sizes, ArchiveFileList (ids), Worker.extract / extract_single (every folder with members gets exactly one decoding task at afterheader + pack position + packpositions[i]).",
-    'Not under contract: Folder._read, UnpackInfo._read (outer part), StreamsInfo.read, SevenZipDecompressor.__init__ (chain selection), FilesInfo._read_start_pos (observed: its assert compares bytes with an int). The exit clauses of SubstreamsInfo._read that restate the invariants over the whole section are drafted but not discharged (disabled, DESIGN.md 11). The folder/stream arithmetic of _real_get_contents is covered by per-iteration trace obligations, not by one inductive invariant. Two BOUNDED stand-ins (labelled bounded) exercise the junctions no contract covers: 3000 seeded MainStreamsInfo sections and 400 seeded whole archives written by an independent encoder / COPY-coder writer must be read back exactly as described. Codec libraries and third-party writers are assumed to follow their contracts. Genuine defects found and repaired: FX11-FX16, FX18, FX19, FX23 (folder CRC of a multi-member folder compared too early).',
+    'Not under contract: Folder._read, UnpackInfo._read (outer part), StreamsInfo.read, SevenZipDecompressor.__init__ (chain selection), FilesInfo._read_start_pos (observed: its assert compares bytes with an int). The exit clauses of SubstreamsInfo._read that restate the invariants over the whole section are drafted but not discharged (disabled, DESIGN.md 11). The folder/stream arithmetic of _real_get_contents is covered by per-iteration trace obligations, not by one inductive invariant. Two BOUNDED stand-ins (labelled bounded) exercise the junctions no contract covers: 3000 seeded MainStreamsInfo sections and 400 seeded whole archives written by an independent encoder / COPY-coder writer must be read back exactly as described. Codec libraries and third-party writers are assumed to follow their contracts. Genuine defects found and repaired: FX11-FX16, FX18, FX19, FX23 (folder CRC of a multi-member folder compared too early), FX28. Open finding F29: a directory entry of an archive that stores no attributes is extracted as an empty file (the EmptyFile vector is kept apart from the members).',
     'DESIGN.md 7 (C06), 11',
 )
 
 CLAIMS["C08"] = (
     "Append as contracts on the real code: SubstreamsInfo.write (exact layout for every folder/stream count: NumUnpackStream record iff some folder differs from one, a size NUMBER for every substream except the last of its folder with the cursor over ALL substreams, Digests structure with one CRC per defined digest, END) and PackInfo.write proved byte-exactly with ghost cut offsets; UnpackInfo.write (section skeleton, every folder once, no extra records); FilesInfo writers (C07); Header.initialize in append mode adds exactly one folder at the end, bumps the folder count and appends a zero stream counter, touching nothing else; Worker._after_write appends one size/CRC/flag and increments the LAST folder's counter; Worker.archive archives exactly the member at the cursor and advances it by one; Worker.flush_archive records exactly one pack stream; Worker.__init__ starts the cursor behind the existing members; _prepare_append positions the file at afterheader + pack position + total packed size; the read side (PackInfo._read, SubstreamsInfo._read, FilesInfo readers).",
-    'BOUNDED stand-in (labelled bounded in the evidence, not counted as proved): every 2-session history with up to 2 members per session over file / zero-length file / directory / zero-length writestr plus 100 seeded 3-session histories is run on the real code each quick run (all 3-session histories in the thorough tier). Otherwise histories are not enumerated: each session is the same code under the same contracts and the member list after a session is old ++ new by these per-call contracts (written argument, DESIGN.md 7). A second bounded stand-in re-serialises 3000 seeded stream sections with the real StreamsInfo.write and reads them back (found FX22: PackInfo.write indexed the pack CRCs by stream although they are kept per defined digest). Folder.write / StreamsInfo.write are not under contract. Genuine defects found and repaired: FX11, FX12, FX15, FX16, FX17, FX19, FX22.',
+    'BOUNDED stand-in (labelled bounded in the evidence, not counted as proved): every 2-session history with up to 2 members per session over file / zero-length file / directory / zero-length writestr plus 100 seeded 3-session histories is run on the real code each quick run (all 3-session histories in the thorough tier). Otherwise histories are not enumerated: each session is the same code under the same contracts and the member list after a session is old ++ new by these per-call contracts (written argument, DESIGN.md 7). A second bounded stand-in re-serialises 3000 seeded stream sections with the real StreamsInfo.write and reads them back (found FX22: PackInfo.write indexed the pack CRCs by stream although they are kept per defined digest). Folder.write / StreamsInfo.write are not under contract. Genuine defects found and repaired: FX11, FX12, FX15, FX16, FX17, FX19, FX22. Open finding F30: appending to an archive from another writer drops the creation times and empty-file flags of the members already there (FilesInfo.write emits only LastWriteTime).',
     'DESIGN.md 7 (C08), 11',
 )
 
@@ -115,7 +115,7 @@ CLAIMS["C18"] = (
 
 CLAIMS["C01"] = (
     "Links of the round trip proved for all inputs on py7zr's own code: AES residue buffering for every chunking (also I/O block sizes below 16), SevenZipCompressor.compress / unpacksizes, SevenZipDecompressor.decompress/_decompress/_read_data, CRC accumulation (calculate_crc32 for every block size), Worker.decompress delivers exactly the declared size and writes every decoded chunk once in order, member ids (ArchiveFileList: every member keeps its archive-wide id inside its folder's list), writestr/writef members always occupy a substream, Worker.archive / _after_write bookkeeping, names in stored order (namelist), the commit protocol of close() (every creating mode writes the header, incl. mode 'x').",
-    'Codecs (lzma, bz2, zlib, zstd, ppmd, brotli, bcj), AES-CBC and CRC32 are assumed stream transducers; end-to-end chaining of the proved links is a written argument (DESIGN.md 7), not one theorem.',
+    'Codecs (lzma, bz2, zlib, zstd, ppmd, brotli, bcj), AES-CBC and CRC32 are assumed stream transducers; end-to-end chaining of the proved links is a written argument (DESIGN.md 7), not one theorem. The name codecs (write_utf16 / read_utf16, FilesInfo._write_names / _read_name) are part of this check. Where the transducer assumption was false the round trip broke on the unchanged tree: FX29 ([Brotli, 7zAES] could not be read back - the AES stage handed its zero padding to a decoder that rejects trailing bytes; repaired, every stage is cut to its declared size).',
     'DESIGN.md 7 (C01), 11',
 )
 
